@@ -383,6 +383,31 @@ def r5_headline(ctx: Ctx, ws: FuncInfo) -> None:
         ctx.ok('C12.R5', ej, 'JSON summary figures come from the analysed totals', construct='headline-figures')
 
 
+def _once_bound_expander(fnode):
+    """A local bound exactly once in the function to a read (`x = d.get('k', …)`, `x = d['k']`, `x = d.get(..) or …`) stands for that read: returns
+    expand(expr) -> a copy of expr with such locals written out (so that rules can compare what is *read*, however many temporaries it goes through)."""
+    counts = {}
+    for n_ in ast.walk(fnode):
+        if isinstance(n_, ast.Name) and isinstance(n_.ctx, ast.Store):
+            counts[n_.id] = counts.get(n_.id, 0) + 1
+    bound = {}
+    for s_ in ast.walk(fnode):
+        if isinstance(s_, ast.Assign) and len(s_.targets) == 1 and isinstance(s_.targets[0], ast.Name) and counts.get(s_.targets[0].id) == 1:
+            v_ = s_.value
+            if isinstance(v_, ast.Subscript) or (isinstance(v_, ast.Call) and isinstance(v_.func, ast.Attribute) and v_.func.attr == 'get' and isinstance(v_.func.value, ast.Name)):
+                bound[s_.targets[0].id] = v_
+
+    class _X(ast.NodeTransformer):
+        def visit_Name(self, node):
+            if node.id in bound and isinstance(node.ctx, ast.Load):
+                return self.visit(copy.deepcopy(bound[node.id]))
+            return node
+
+    def expand(e):
+        return _X().visit(copy.deepcopy(e)) if bound else e
+    return expand
+
+
 # --------------------------------------------------------------------------- R6
 def r6_fields(ctx: Ctx, ws: FuncInfo) -> None:
     proj = ctx.proj
@@ -401,9 +426,11 @@ def r6_fields(ctx: Ctx, ws: FuncInfo) -> None:
         ctx.unknown('C12.R6', bm, 'txn_json literal not found')
     d = dicts[0].value
     out_keys = {}
+    expand = _once_bound_expander(bm.node)
     for k, v in zip(d.keys, d.values):
         if not isinstance(k, ast.Constant):
             continue
+        v = expand(v)
         reads = [c.args[0].value for c in ast.walk(v) if isinstance(c, ast.Call) and isinstance(c.func, ast.Attribute) and c.func.attr == 'get'
                  and src(c.func.value) == 'txn' and c.args and isinstance(c.args[0], ast.Constant)]
         out_keys[k.value] = reads
@@ -439,7 +466,7 @@ def r6_fields(ctx: Ctx, ws: FuncInfo) -> None:
     # the merchant record carries what the analysis computed
     md = [n for n in ast.walk(bm.node) if isinstance(n, ast.Assign) and src(n.targets[0]) == 'merchants[merchant_id]' and isinstance(n.value, ast.Dict)]
     if md:
-        vals = {k.value: src(v) for k, v in zip(md[0].value.keys, md[0].value.values) if isinstance(k, ast.Constant)}
+        vals = {k.value: src(expand(v)) for k, v in zip(md[0].value.keys, md[0].value.values) if isinstance(k, ast.Constant)}
         ctx.check(vals.get('ytd') == "data.get('total', 0)" and vals.get('transactions') == 'txns' and vals.get('displayName') == 'merchant_name' and "data.get('tags'" in vals.get('tags', ''),
                   'C12.R6', bm, 'merchant-record', 'merchant record: ytd = analysed total, its transactions, its tags, its name', f'merchant record fields {vals}')
 
